@@ -33,15 +33,16 @@ theorem readLE_writeLE_u64 (X : Array LByte) (off v : Nat) (hv : v < 18446744073
 /-- **the body of `tinyjambu_prng_init_user(state, callback, user_data, custom, custom_len)`** on the regenerated term for a user callback: the object is
     zeroed, the callback fields stored, one delivery of the entropy script lands in `V`, `V ← Hash_df(V ‖ custom)` (no marker), `C ← Hash_df(0x00 ‖ V)`,
     `reseed_counter = 1`, `reseed_limit = 32` blocks; the result is 1 exactly when the callback reported 32 bytes. -/
-theorem init_user_body (E0 : Env) (st : St) (bp bi : Nat) (X XI : Array LByte) (baseP basei ioff pc ud : Nat) (custom : Bytes)
-    (e0s : E0.size = 16) (e0_0 : E0[0]? = some (mkPtr bp baseP, .pub)) (e0_1 : E0[1]? = some (userCb, .pub)) (e0_2 : E0[2]? = some (ud, .pub))
+theorem init_user_body (cbarg cbv udv : Nat) (E0 : Env) (st : St) (bp bi : Nat) (X XI : Array LByte) (baseP basei ioff pc ud : Nat) (custom : Bytes)
+    (hsel : (cbarg ≠ 0 ∧ cbv = cbarg ∧ udv = ud) ∨ (cbarg = 0 ∧ cbv = sysCb ∧ udv = 0)) (hk : CbOk cbv)
+    (e0s : E0.size = 16) (e0_0 : E0[0]? = some (mkPtr bp baseP, .pub)) (e0_1 : E0[1]? = some (cbarg, .pub)) (e0_2 : E0[2]? = some (ud, .pub))
     (e0_3 : E0[3]? = some (pc, .pub)) (e0_4 : E0[4]? = some (custom.length, .pub))
     (hP : st.mem[bp]? = some ⟨X, baseP⟩) (hXs : 96 ≤ X.size) (hal : baseP % 8 = 0) (hltP : baseP + X.size < ptrBase) (hud : ud < 18446744073709551616)
     (hI : custom = [] ∨ (st.mem[bi]? = some ⟨XI, basei⟩ ∧ BytesV XI ioff custom ∧ pc = mkPtr bi (basei + ioff) ∧ basei + XI.size < ptrBase)) (hne : bi ≠ bp)
     (hsz : st.mem.size + 5 < 2 ^ 30) :
-    RunsTo prog initBody E0 st (fun sig e s => sig = .ret (some (if (st.ent.headD ([], 0)).2 = 32 then 1 else 0, .pub)) ∧ s.ent = st.ent.tail ∧ s.mem.size = st.mem.size ∧
+    RunsTo prog initBody E0 st (fun sig e s => sig = .ret (some (if cbRet cbv (st.ent.headD ([], 0)) = 32 then 1 else 0, .pub)) ∧ s.ent = st.ent.tail ∧ s.mem.size = st.mem.size ∧
       (∃ X', s.mem[bp]? = some ⟨X', baseP⟩ ∧ X'.size = X.size ∧
-        PObjV X' (hashDf 0xFF (seedOf (st.ent.headD ([], 0)) (zeros 32)) custom) (hashDf 0 (hashDf 0xFF (seedOf (st.ent.headD ([], 0)) (zeros 32)) custom) []) 1 32 ∧ PCb X' ud) ∧
+        PObjV X' (hashDf 0xFF (seedOf (st.ent.headD ([], 0)) (zeros 32)) custom) (hashDf 0 (hashDf 0xFF (seedOf (st.ent.headD ([], 0)) (zeros 32)) custom) []) 1 32 ∧ PCb X' udv cbv) ∧
       ∀ j, j ≠ bp → ORel (KeepW (fun _ => False) (fun q => j = bi ∧ ioff ≤ q ∧ q < ioff + custom.length)) s.mem[j]? st.mem[j]?) := by
   have hbpN := mem_lt hP
   generalize hd : st.ent.headD ([], 0) = d
@@ -49,7 +50,7 @@ theorem init_user_body (E0 : Env) (st : St) (bp bi : Nat) (X XI : Array LByte) (
   have eadd : ∀ (E : Env) (k : Nat), k ≤ 80 → E[5]? = some (mkPtr bp baseP, .pub) → evalE E (.bin .add .u64 (.var 5) (.lit k)) = .ok (mkPtr bp (baseP + k), .pub) := fun E k hk h5 => by
     simp only [evalE, h5, reduceCtorEq, if_false, BinOp.needsPub2, BinOp.needsPub1, Bool.false_and, Bool.or_self, Bool.false_eq_true, binVal, Ty.modulus, Lab.join_pub_pub, hpk k hk]
   -- environments: variables 5.. are temporaries, 0..4 the parameters
-  let EK : Env → Prop := fun e => e.size = 16 ∧ e[0]? = some (mkPtr bp baseP, .pub) ∧ e[1]? = some (userCb, .pub) ∧ e[2]? = some (ud, .pub) ∧ e[3]? = some (pc, .pub) ∧
+  let EK : Env → Prop := fun e => e.size = 16 ∧ e[0]? = some (mkPtr bp baseP, .pub) ∧ e[1]? = some (cbarg, .pub) ∧ e[2]? = some (ud, .pub) ∧ e[3]? = some (pc, .pub) ∧
     e[4]? = some (custom.length, .pub) ∧ e[5]? = some (mkPtr bp baseP, .pub)
   have ekSet : ∀ (e : Env) (y : Nat) (v : LVal), 6 ≤ y → EK e → EK (setVar e y v) := fun e y v hy u =>
     ⟨by rw [size_setVar]; exact u.1, by rw [get_set_ne _ _ _ _ (by omega)]; exact u.2.1, by rw [get_set_ne _ _ _ _ (by omega)]; exact u.2.2.1, by rw [get_set_ne _ _ _ _ (by omega)]; exact u.2.2.2.1,
@@ -76,38 +77,55 @@ theorem init_user_body (E0 : Env) (st : St) (bp bi : Nat) (X XI : Array LByte) (
   intro e3 s3 ⟨ek3, e3_6, hent3, hm3⟩
   have hP3 : s3.mem[bp]? = some ⟨X1, baseP⟩ := by rw [hm3, getElem?_setBlock', if_pos rfl, hP]; rfl
   -- callback and user data
-  have hcbnz : userCb ≠ 0 := by decide
-  have hcb64 : userCb < 18446744073709551616 := by decide
-  have hXc0 : (writeLE X1 72 userCb .pub 8).size = X.size ∧ (∀ q, q < 72 → (writeLE X1 72 userCb .pub 8)[q]? = some (0, .pub)) ∧ readLE (writeLE X1 72 userCb .pub 8) 72 8 = some (userCb, .pub) :=
-    ⟨by rw [size_writeLE]; exact hX1s, fun q hq => by rw [getElem?_writeLE_out _ _ _ _ _ _ (Or.inl (by omega))]; exact hX1z q (by omega), readLE_writeLE_u64 X1 72 userCb hcb64 (by omega)⟩
-  generalize hXc : writeLE X1 72 userCb .pub 8 = Xc at hXc0
-  obtain ⟨hXcs, hXclo, hXccb⟩ := hXc0
-  generalize hX2 : writeLE Xc 80 ud .pub 8 = X2
-  have hX2s : X2.size = X.size := by rw [← hX2, size_writeLE]; exact hXcs
-  have hX2lo : ∀ q, q < 72 → X2[q]? = some (0, .pub) := fun q hq => by
-    rw [← hX2, getElem?_writeLE_out _ _ _ _ _ _ (Or.inl (by omega))]; exact hXclo q hq
-  have hX2cb : PCb X2 ud := by
-    refine ⟨?_, ?_⟩
-    · rw [← hX2, readLE_writeLE_ne _ 80 72 _ 8 8 .pub (Or.inl (by omega))]; exact hXccb
-    · rw [← hX2]; exact readLE_writeLE_u64 _ 80 ud hud (by omega)
-  refine runs_seq (Q := fun e s => EK e ∧ e[6]? = some (0, .pub) ∧ s.ent = st.ent ∧ s.mem = setBlock st.mem bp X2) ?_ ?_
-  · refine runs_ite_true userCb (by simp only [evalE, ek3.2.2.1, reduceCtorEq, if_false]) hcbnz ?_
-    refine runs_seq (Q := fun e s => EK e ∧ e[6]? = some (0, .pub) ∧ s.ent = st.ent ∧ s.mem = setBlock st.mem bp Xc) ?_ ?_
-    · refine runs_seq (Q := fun e s => e = setVar e3 8 (mkPtr bp (baseP + 72), .pub) ∧ s.ent = st.ent ∧ s.mem = s3.mem) (runs_assign _ (eadd e3 72 (by decide) ek3.2.2.2.2.2.2) ⟨rfl, rfl, hent3, rfl⟩) ?_
+  have hcb64 : cbv < 18446744073709551616 := by rcases hk with h | h <;> rw [h] <;> decide
+  have hz80 : readLE X1 80 8 = some (0, .pub) := by
+    simp only [readLE, hX1z 80 (by decide), hX1z 81 (by decide), hX1z 82 (by decide), hX1z 83 (by decide), hX1z 84 (by decide), hX1z 85 (by decide), hX1z 86 (by decide), hX1z 87 (by decide),
+      reduceCtorEq, if_false, Lab.join]
+    rfl
+  refine runs_seq (Q := fun e s => EK e ∧ e[6]? = some (0, .pub) ∧ s.ent = st.ent ∧ ∃ X2, s.mem = setBlock st.mem bp X2 ∧ X2.size = X.size ∧ (∀ q, q < 72 → X2[q]? = some (0, .pub)) ∧ PCb X2 udv cbv) ?_ ?_
+  · have hXc0 : (writeLE X1 72 cbv .pub 8).size = X.size ∧ (∀ q, q < 72 → (writeLE X1 72 cbv .pub 8)[q]? = some (0, .pub)) ∧ readLE (writeLE X1 72 cbv .pub 8) 72 8 = some (cbv, .pub) ∧
+        readLE (writeLE X1 72 cbv .pub 8) 80 8 = some (0, .pub) :=
+      ⟨by rw [size_writeLE]; exact hX1s, fun q hq => by rw [getElem?_writeLE_out _ _ _ _ _ _ (Or.inl (by omega))]; exact hX1z q (by omega), readLE_writeLE_u64 X1 72 cbv hcb64 (by omega),
+       by rw [readLE_writeLE_ne X1 72 80 _ 8 8 .pub (Or.inr (by omega))]; exact hz80⟩
+    generalize hXc : writeLE X1 72 cbv .pub 8 = Xc at hXc0
+    obtain ⟨hXcs, hXclo, hXccb, hXcud⟩ := hXc0
+    rcases hsel with ⟨hnz, hcv, hudv⟩ | ⟨hz0, hcv, hudv⟩
+    · -- a callback was supplied: store it and the user data
+      subst hcv hudv
+      generalize hX2 : writeLE Xc 80 udv .pub 8 = X2
+      have hX2s : X2.size = X.size := by rw [← hX2, size_writeLE]; exact hXcs
+      have hX2lo : ∀ q, q < 72 → X2[q]? = some (0, .pub) := fun q hq => by
+        rw [← hX2, getElem?_writeLE_out _ _ _ _ _ _ (Or.inl (by omega))]; exact hXclo q hq
+      have hX2cb : PCb X2 udv cbv := by
+        refine ⟨?_, ?_⟩
+        · rw [← hX2, readLE_writeLE_ne _ 80 72 _ 8 8 .pub (Or.inl (by omega))]; exact hXccb
+        · rw [← hX2]; exact readLE_writeLE_u64 _ 80 udv hud (by omega)
+      refine runs_ite_true cbv (by simp only [evalE, ek3.2.2.1, reduceCtorEq, if_false]) hnz ?_
+      refine runs_seq (Q := fun e s => EK e ∧ e[6]? = some (0, .pub) ∧ s.ent = st.ent ∧ s.mem = setBlock st.mem bp Xc) ?_ ?_
+      · refine runs_seq (Q := fun e s => e = setVar e3 8 (mkPtr bp (baseP + 72), .pub) ∧ s.ent = st.ent ∧ s.mem = s3.mem) (runs_assign _ (eadd e3 72 (by decide) ek3.2.2.2.2.2.2) ⟨rfl, rfl, hent3, rfl⟩) ?_
+        intro e s ⟨he, h1, h2⟩; rw [he]
+        have ek := ekSet e3 8 (mkPtr bp (baseP + 72), .pub) (by decide) ek3
+        refine runs_store (mkPtr bp (baseP + 72)) cbv bp 72 8 .pub rfl (by simp only [evalE, get_set_eq _ _ _ (show 8 < e3.size from by rw [ek3.1]; decide), reduceCtorEq, if_false])
+          (by simp only [evalE, ek.2.2.1, reduceCtorEq, if_false]) (by rw [h2]; exact resolve_mkPtr s3.mem bp 72 8 ⟨X1, baseP⟩ hP3 (by show 72 + 8 ≤ X1.size; omega) (by show baseP + 72 < _; omega) (fun _ => by show (baseP + 72) % 8 = 0; omega))
+          ⟨rfl, ek, by rw [get_set_ne _ _ _ _ (by decide)]; exact e3_6, h1, by rw [h2, blockBytes_of hP3, hm3, setBlock_setBlock _ _ _ _ _ hP, hXc]⟩
+      · intro e4 s4 ⟨ek4, e4_6, hent4, hm4⟩
+        have hP4 : s4.mem[bp]? = some ⟨Xc, baseP⟩ := by rw [hm4, getElem?_setBlock', if_pos rfl, hP]; rfl
+        refine runs_seq (Q := fun e s => e = setVar e4 9 (mkPtr bp (baseP + 80), .pub) ∧ s.ent = st.ent ∧ s.mem = s4.mem) (runs_assign _ (eadd e4 80 (by decide) ek4.2.2.2.2.2.2) ⟨rfl, rfl, hent4, rfl⟩) ?_
+        intro e s ⟨he, h1, h2⟩; rw [he]
+        have ek := ekSet e4 9 (mkPtr bp (baseP + 80), .pub) (by decide) ek4
+        refine runs_store (mkPtr bp (baseP + 80)) udv bp 80 8 .pub rfl (by simp only [evalE, get_set_eq _ _ _ (show 9 < e4.size from by rw [ek4.1]; decide), reduceCtorEq, if_false])
+          (by simp only [evalE, ek.2.2.2.1, reduceCtorEq, if_false]) (by rw [h2]; exact resolve_mkPtr s4.mem bp 80 8 ⟨Xc, baseP⟩ hP4 (by show 80 + 8 ≤ Xc.size; omega) (by show baseP + 80 < _; omega) (fun _ => by show (baseP + 80) % 8 = 0; omega))
+          ⟨rfl, ek, by rw [get_set_ne _ _ _ _ (by decide)]; exact e4_6, h1, X2, by rw [h2, blockBytes_of hP4, hm4, setBlock_setBlock _ _ _ _ _ hP, hX2], hX2s, hX2lo, hX2cb⟩
+    · -- NULL: install the system source; user data stays zero
+      subst hcv hudv
+      refine runs_ite_false (by simp only [evalE, ek3.2.2.1, reduceCtorEq, if_false, hz0]) ?_
+      refine runs_seq (Q := fun e s => e = setVar e3 10 (mkPtr bp (baseP + 72), .pub) ∧ s.ent = st.ent ∧ s.mem = s3.mem) (runs_assign _ (eadd e3 72 (by decide) ek3.2.2.2.2.2.2) ⟨rfl, rfl, hent3, rfl⟩) ?_
       intro e s ⟨he, h1, h2⟩; rw [he]
-      have ek := ekSet e3 8 (mkPtr bp (baseP + 72), .pub) (by decide) ek3
-      refine runs_store (mkPtr bp (baseP + 72)) userCb bp 72 8 .pub rfl (by simp only [evalE, get_set_eq _ _ _ (show 8 < e3.size from by rw [ek3.1]; decide), reduceCtorEq, if_false])
-        (by simp only [evalE, ek.2.2.1, reduceCtorEq, if_false]) (by rw [h2]; exact resolve_mkPtr s3.mem bp 72 8 ⟨X1, baseP⟩ hP3 (by show 72 + 8 ≤ X1.size; omega) (by show baseP + 72 < _; omega) (fun _ => by show (baseP + 72) % 8 = 0; omega))
-        ⟨rfl, ek, by rw [get_set_ne _ _ _ _ (by decide)]; exact e3_6, h1, by rw [h2, blockBytes_of hP3, hm3, setBlock_setBlock _ _ _ _ _ hP, hXc]⟩
-    · intro e4 s4 ⟨ek4, e4_6, hent4, hm4⟩
-      have hP4 : s4.mem[bp]? = some ⟨Xc, baseP⟩ := by rw [hm4, getElem?_setBlock', if_pos rfl, hP]; rfl
-      refine runs_seq (Q := fun e s => e = setVar e4 9 (mkPtr bp (baseP + 80), .pub) ∧ s.ent = st.ent ∧ s.mem = s4.mem) (runs_assign _ (eadd e4 80 (by decide) ek4.2.2.2.2.2.2) ⟨rfl, rfl, hent4, rfl⟩) ?_
-      intro e s ⟨he, h1, h2⟩; rw [he]
-      have ek := ekSet e4 9 (mkPtr bp (baseP + 80), .pub) (by decide) ek4
-      refine runs_store (mkPtr bp (baseP + 80)) ud bp 80 8 .pub rfl (by simp only [evalE, get_set_eq _ _ _ (show 9 < e4.size from by rw [ek4.1]; decide), reduceCtorEq, if_false])
-        (by simp only [evalE, ek.2.2.2.1, reduceCtorEq, if_false]) (by rw [h2]; exact resolve_mkPtr s4.mem bp 80 8 ⟨Xc, baseP⟩ hP4 (by show 80 + 8 ≤ Xc.size; omega) (by show baseP + 80 < _; omega) (fun _ => by show (baseP + 80) % 8 = 0; omega))
-        ⟨rfl, ek, by rw [get_set_ne _ _ _ _ (by decide)]; exact e4_6, h1, by rw [h2, blockBytes_of hP4, hm4, setBlock_setBlock _ _ _ _ _ hP, hX2]⟩
-  intro e5 s5 ⟨ek5, e5_6, hent5, hm5⟩
+      have ek := ekSet e3 10 (mkPtr bp (baseP + 72), .pub) (by decide) ek3
+      refine runs_store (mkPtr bp (baseP + 72)) sysCb bp 72 8 .pub rfl (by simp only [evalE, get_set_eq _ _ _ (show 10 < e3.size from by rw [ek3.1]; decide), reduceCtorEq, if_false])
+        (by simp only [evalE]; rfl) (by rw [h2]; exact resolve_mkPtr s3.mem bp 72 8 ⟨X1, baseP⟩ hP3 (by show 72 + 8 ≤ X1.size; omega) (by show baseP + 72 < _; omega) (fun _ => by show (baseP + 72) % 8 = 0; omega))
+        ⟨rfl, ek, by rw [get_set_ne _ _ _ _ (by decide)]; exact e3_6, h1, Xc, by rw [h2, blockBytes_of hP3, hm3, setBlock_setBlock _ _ _ _ _ hP, hXc], hXcs, hXclo, ⟨hXccb, hXcud⟩⟩
+  intro e5 s5 ⟨ek5, e5_6, hent5, X2, hm5, hX2s, hX2lo, hX2cb⟩
   have hP5 : s5.mem[bp]? = some ⟨X2, baseP⟩ := by rw [hm5, getElem?_setBlock', if_pos rfl, hP]; rfl
   -- the callback delivers into V
   generalize hX3 : writeBytes X2 0 ((d.1.take (min d.1.length 32)).map fun x => (x, Lab.sec)) = X3
@@ -132,27 +150,25 @@ theorem init_user_body (E0 : Env) (st : St) (bp bi : Nat) (X XI : Array LByte) (
         intro i c h; unfold zeros at h; rw [List.getElem?_replicate] at h; split at h <;> simp_all
       have hb0 : b = 0 := hz _ _ hk
       exact ⟨.pub, by rw [← hX3, getElem?_writeBytes, if_neg (by simp only [List.length_map, List.length_take]; omega), Nat.zero_add, hb0]; exact hX2lo k (by omega), by decide⟩
-  refine runs_seq (Q := fun e s => EK e ∧ e[6]? = some (if d.2 = 32 then 1 else 0, .pub) ∧ s.ent = st.ent.tail ∧ s.mem = setBlock st.mem bp X3) ?_ ?_
-  · refine runs_seq (Q := fun e s => EK e ∧ e[6]? = some (0, .pub) ∧ e[11]? = some (ud, .pub) ∧ s.ent = st.ent ∧ s.mem = s5.mem)
-      (runs_load (mkPtr bp (baseP + 80)) bp 80 8 (ud, .pub) rfl (eadd e5 80 (by decide) ek5.2.2.2.2.2.2) (resolve_mkPtr s5.mem bp 80 8 ⟨X2, baseP⟩ hP5 (by show 80 + 8 ≤ X2.size; omega) (by show baseP + 80 < _; omega) (fun _ => by show (baseP + 80) % 8 = 0; omega))
+  refine runs_seq (Q := fun e s => EK e ∧ e[6]? = some (if cbRet cbv d = 32 then 1 else 0, .pub) ∧ s.ent = st.ent.tail ∧ s.mem = setBlock st.mem bp X3) ?_ ?_
+  · refine runs_seq (Q := fun e s => EK e ∧ e[6]? = some (0, .pub) ∧ e[11]? = some (udv, .pub) ∧ s.ent = st.ent ∧ s.mem = s5.mem)
+      (runs_load (mkPtr bp (baseP + 80)) bp 80 8 (udv, .pub) rfl (eadd e5 80 (by decide) ek5.2.2.2.2.2.2) (resolve_mkPtr s5.mem bp 80 8 ⟨X2, baseP⟩ hP5 (by show 80 + 8 ≤ X2.size; omega) (by show baseP + 80 < _; omega) (fun _ => by show (baseP + 80) % 8 = 0; omega))
         (by rw [blockBytes_of hP5]; exact hX2cb.ud) ⟨rfl, ekSet _ _ _ (by decide) ek5, by rw [get_set_ne _ _ _ _ (by decide)]; exact e5_6, get_set_eq _ _ _ (by rw [ek5.1]; decide), hent5, rfl⟩) ?_
     intro e6 s6 ⟨ek6, e6_6, e6_11, hent6, hm6⟩
-    refine runs_seq (Q := fun e s => EK e ∧ e[6]? = some (0, .pub) ∧ e[11]? = some (ud, .pub) ∧ e[13]? = some (userCb, .pub) ∧ s.ent = st.ent ∧ s.mem = s5.mem)
-      (runs_load (mkPtr bp (baseP + 72)) bp 72 8 (userCb, .pub) rfl (eadd e6 72 (by decide) ek6.2.2.2.2.2.2) (by rw [hm6]; exact resolve_mkPtr s5.mem bp 72 8 ⟨X2, baseP⟩ hP5 (by show 72 + 8 ≤ X2.size; omega) (by show baseP + 72 < _; omega) (fun _ => by show (baseP + 72) % 8 = 0; omega))
+    refine runs_seq (Q := fun e s => EK e ∧ e[6]? = some (0, .pub) ∧ e[11]? = some (udv, .pub) ∧ e[13]? = some (cbv, .pub) ∧ s.ent = st.ent ∧ s.mem = s5.mem)
+      (runs_load (mkPtr bp (baseP + 72)) bp 72 8 (cbv, .pub) rfl (eadd e6 72 (by decide) ek6.2.2.2.2.2.2) (by rw [hm6]; exact resolve_mkPtr s5.mem bp 72 8 ⟨X2, baseP⟩ hP5 (by show 72 + 8 ≤ X2.size; omega) (by show baseP + 72 < _; omega) (fun _ => by show (baseP + 72) % 8 = 0; omega))
         (by rw [hm6, blockBytes_of hP5]; exact hX2cb.cb) ⟨rfl, ekSet _ _ _ (by decide) ek6, by rw [get_set_ne _ _ _ _ (by decide)]; exact e6_6, by rw [get_set_ne _ _ _ _ (by decide)]; exact e6_11,
           get_set_eq _ _ _ (by rw [ek6.1]; decide), hent6, hm6⟩) ?_
     intro e7 s7 ⟨ek7, e7_6, e7_11, e7_13, hent7, hm7⟩
-    have hP7 : ({ s7 with leak := .icall userCb :: s7.leak } : St).mem[bp]? = some ⟨X2, baseP⟩ := by show s7.mem[bp]? = _; rw [hm7]; exact hP5
-    have hdel := deliver_block { s7 with leak := .icall userCb :: s7.leak } bp baseP 0 X2 hP7 (by omega) (by rw [hX2s]; exact hltP)
-    have hhd : ({ s7 with leak := .icall userCb :: s7.leak } : St).ent.headD ([], 0) = d := by show s7.ent.headD _ = _; rw [hent7]; exact hd
-    rw [hhd, hX3] at hdel
-    refine runs_seq (Q := fun e s => e = setVar e7 12 (d.2, .pub) ∧ s.ent = st.ent.tail ∧ s.mem = setBlock st.mem bp X3)
-      (runs_calli_user (ud, .pub) (mkPtr bp (baseP + 0)) 32 _ _ (by simp only [evalE, e7_13, reduceCtorEq, if_false])
-        (by simp only [evalArgs, evalE, e7_11, ek7.2.2.2.2.2.2, reduceCtorEq, if_false, Nat.add_zero]) hdel
-        ⟨rfl, rfl, by show s7.ent.tail = _; rw [hent7], by show setBlock s7.mem bp X3 = _; rw [hm7, hm5, setBlock_setBlock _ _ _ _ _ hP]⟩) ?_
+    have hP7 : s7.mem[bp]? = some ⟨X2, baseP⟩ := by rw [hm7]; exact hP5
+    have hhd : s7.ent.headD ([], 0) = d := by rw [hent7]; exact hd
+    refine runs_seq (Q := fun e s => e = setVar e7 12 (cbRet cbv d, .pub) ∧ s.ent = st.ent.tail ∧ s.mem = setBlock st.mem bp X3)
+      (runs_calli_cb cbv hk (udv, .pub) bp baseP 0 X2 (by simp only [evalE, e7_13, reduceCtorEq, if_false])
+        (by simp only [evalArgs, evalE, e7_11, ek7.2.2.2.2.2.2, reduceCtorEq, if_false, Nat.add_zero]) hP7 (by omega) (by rw [hX2s]; exact hltP)
+        (fun L => by rw [hhd, hX3]; exact ⟨rfl, rfl, by show s7.ent.tail = _; rw [hent7], by show setBlock s7.mem bp X3 = _; rw [hm7, hm5, setBlock_setBlock _ _ _ _ _ hP]⟩)) ?_
     intro e8 s8 ⟨he8, hent8, hm8⟩; rw [he8]
-    have ek8 := ekSet e7 12 (d.2, .pub) (by decide) ek7
-    by_cases h32 : d.2 = 32
+    have ek8 := ekSet e7 12 (cbRet cbv d, .pub) (by decide) ek7
+    by_cases h32 : cbRet cbv d = 32
     · refine runs_ite_true 1 ?_ (by decide) (runs_assign (1, .pub) (by simp only [evalE]) ⟨rfl, ekSet _ _ _ (by decide) ek8, by rw [get_set_eq _ _ _ (by rw [ek8.1]; decide), if_pos h32], hent8, hm8⟩)
       simp only [evalE, get_set_eq _ _ _ (show 12 < e7.size from by rw [ek7.1]; decide), reduceCtorEq, if_false, BinOp.needsPub2, BinOp.needsPub1, Bool.false_and, Bool.or_self,
         Bool.false_eq_true, binVal, h32, decide_true, b2n, if_true, Lab.join_pub_pub]
@@ -200,10 +216,10 @@ theorem init_user_body (E0 : Env) (st : St) (bp bi : Nat) (X XI : Array LByte) (
     rw [hX3hi q (by omega)] at b
     exact orel_trans (R := VLe) (fun _ _ _ p r => vle_trans p r) a b
   have hZ2sz : Z2.size = X.size := by rw [hZ2s, hZ1s, hX3s]
-  have hcb2 : PCb Z2 ud := pcb_vle hX2cb (fun q hq => hfield2 q (by omega))
+  have hcb2 : PCb Z2 udv cbv := pcb_vle hX2cb (fun q hq => hfield2 q (by omega))
   -- reseed_counter = 1, reseed_limit = 32
   generalize hX4 : writeLE (writeLE Z2 64 1 .pub 4) 68 32 .pub 4 = X4
-  refine runs_seq (Q := fun e s => EK e ∧ e[6]? = some (if d.2 = 32 then 1 else 0, .pub) ∧ s.ent = st.ent.tail ∧ s.mem = setBlock s11.mem bp (writeLE Z2 64 1 .pub 4)) ?_ ?_
+  refine runs_seq (Q := fun e s => EK e ∧ e[6]? = some (if cbRet cbv d = 32 then 1 else 0, .pub) ∧ s.ent = st.ent.tail ∧ s.mem = setBlock s11.mem bp (writeLE Z2 64 1 .pub 4)) ?_ ?_
   · refine runs_seq (Q := fun e s => e = setVar e9 14 (mkPtr bp (baseP + 64), .pub) ∧ s = s11) (runs_assign _ (eadd e9 64 (by decide) ek9.2.2.2.2.2.2) ⟨rfl, rfl, rfl⟩) ?_
     intro e s ⟨he, hs⟩; rw [he, hs]
     refine runs_store (mkPtr bp (baseP + 64)) 1 bp 64 4 .pub rfl (by simp only [evalE, get_set_eq _ _ _ (show 14 < e9.size from by rw [ek9.1]; decide), reduceCtorEq, if_false])
@@ -212,14 +228,14 @@ theorem init_user_body (E0 : Env) (st : St) (bp bi : Nat) (X XI : Array LByte) (
   intro e12 s12 ⟨ek12, e12_6, hent12, hm12⟩
   have hP12 : s12.mem[bp]? = some ⟨writeLE Z2 64 1 .pub 4, baseP⟩ := by rw [hm12, getElem?_setBlock', if_pos rfl, hO2]; rfl
   have hc32 : castVal .u32 .i32 32 = 32 := by decide
-  refine runs_seq (Q := fun e s => e[6]? = some (if d.2 = 32 then 1 else 0, .pub) ∧ s.ent = st.ent.tail ∧ s.mem = setBlock s11.mem bp X4) ?_ ?_
+  refine runs_seq (Q := fun e s => e[6]? = some (if cbRet cbv d = 32 then 1 else 0, .pub) ∧ s.ent = st.ent.tail ∧ s.mem = setBlock s11.mem bp X4) ?_ ?_
   · refine runs_seq (Q := fun e s => e = setVar e12 15 (mkPtr bp (baseP + 68), .pub) ∧ s = s12) (runs_assign _ (eadd e12 68 (by decide) ek12.2.2.2.2.2.2) ⟨rfl, rfl, rfl⟩) ?_
     intro e s ⟨he, hs⟩; rw [he, hs]
     refine runs_store (mkPtr bp (baseP + 68)) 32 bp 68 4 .pub rfl (by simp only [evalE, get_set_eq _ _ _ (show 15 < e12.size from by rw [ek12.1]; decide), reduceCtorEq, if_false])
       (by simp only [evalE, hc32]) (resolve_word hP12 68 (by omega) (by rw [size_writeLE]; omega) (by omega))
       ⟨rfl, by rw [get_set_ne _ _ _ _ (by decide)]; exact e12_6, hent12, by rw [blockBytes_of hP12, hm12, setBlock_setBlock _ _ _ _ _ hO2, hX4]⟩
   intro e13 s13 ⟨e13_6, hent13, hm13⟩
-  refine runs_ret_some (if d.2 = 32 then 1 else 0, .pub) (by simp only [evalE, e13_6, reduceCtorEq, if_false]) ?_
+  refine runs_ret_some (if cbRet cbv d = 32 then 1 else 0, .pub) (by simp only [evalE, e13_6, reduceCtorEq, if_false]) ?_
   have hX4lo : ∀ q, (q < 64 ∨ 72 ≤ q) → X4[q]? = Z2[q]? := fun q hq => by
     rw [← hX4, getElem?_writeLE_out _ _ _ _ _ _ (by omega), getElem?_writeLE_out _ _ _ _ _ _ (by omega)]
   refine ⟨rfl, hent13, by rw [hm13, size_setBlock', hsz11, hsz10]; exact hsz9, ⟨X4, by rw [hm13, getElem?_setBlock', if_pos rfl, hO2]; rfl,
@@ -252,21 +268,22 @@ theorem init_user_body (E0 : Env) (st : St) (bp bi : Nat) (X XI : Array LByte) (
       · exact h)
 
 /-- **`x = tinyjambu_prng_init_user(state, callback, user_data, custom, custom_len)`** with a user callback -/
-theorem prng_init_user_call_ret (x : Nat) (env : Env) (st : St) (es ecb eud ec ecl : Expr) (bp bi : Nat) (X XI : Array LByte) (baseP basei ioff pc ud : Nat) (custom : Bytes)
-    (hes : evalE env es = .ok (mkPtr bp baseP, .pub)) (hecb : evalE env ecb = .ok (userCb, .pub)) (heud : evalE env eud = .ok (ud, .pub))
+theorem prng_init_user_call_ret (cbarg cbv udv : Nat) (x : Nat) (env : Env) (st : St) (es ecb eud ec ecl : Expr) (bp bi : Nat) (X XI : Array LByte) (baseP basei ioff pc ud : Nat) (custom : Bytes)
+    (hsel : (cbarg ≠ 0 ∧ cbv = cbarg ∧ udv = ud) ∨ (cbarg = 0 ∧ cbv = sysCb ∧ udv = 0)) (hk : CbOk cbv)
+    (hes : evalE env es = .ok (mkPtr bp baseP, .pub)) (hecb : evalE env ecb = .ok (cbarg, .pub)) (heud : evalE env eud = .ok (ud, .pub))
     (hec : evalE env ec = .ok (pc, .pub)) (hecl : evalE env ecl = .ok (custom.length, .pub))
     (hP : st.mem[bp]? = some ⟨X, baseP⟩) (hXs : 96 ≤ X.size) (hal : baseP % 8 = 0) (hltP : baseP + X.size < ptrBase) (hud : ud < 18446744073709551616)
     (hI : custom = [] ∨ (st.mem[bi]? = some ⟨XI, basei⟩ ∧ BytesV XI ioff custom ∧ pc = mkPtr bi (basei + ioff) ∧ basei + XI.size < ptrBase)) (hne : bi ≠ bp)
     (hsz : st.mem.size + 5 < 2 ^ 30) :
     RunsTo prog (.call (some x) idx_tinyjambu_prng_init_user [es, ecb, eud, ec, ecl]) env st (fun sig e s => sig = .normal ∧
-      e = setVar env x (if (st.ent.headD ([], 0)).2 = 32 then 1 else 0, .pub) ∧ s.ent = st.ent.tail ∧ s.mem.size = st.mem.size ∧
+      e = setVar env x (if cbRet cbv (st.ent.headD ([], 0)) = 32 then 1 else 0, .pub) ∧ s.ent = st.ent.tail ∧ s.mem.size = st.mem.size ∧
       (∃ X', s.mem[bp]? = some ⟨X', baseP⟩ ∧ X'.size = X.size ∧
-        PObjV X' (hashDf 0xFF (seedOf (st.ent.headD ([], 0)) (zeros 32)) custom) (hashDf 0 (hashDf 0xFF (seedOf (st.ent.headD ([], 0)) (zeros 32)) custom) []) 1 32 ∧ PCb X' ud) ∧
+        PObjV X' (hashDf 0xFF (seedOf (st.ent.headD ([], 0)) (zeros 32)) custom) (hashDf 0 (hashDf 0xFF (seedOf (st.ent.headD ([], 0)) (zeros 32)) custom) []) 1 32 ∧ PCb X' udv cbv) ∧
       ∀ j, j ≠ bp → ORel (KeepW (fun _ => False) (fun q => j = bi ∧ ioff ≤ q ∧ q < ioff + custom.length)) s.mem[j]? st.mem[j]?) := by
-  let vs : List LVal := [(mkPtr bp baseP, .pub), (userCb, .pub), (ud, .pub), (pc, .pub), (custom.length, .pub)]
+  let vs : List LVal := [(mkPtr bp baseP, .pub), (cbarg, .pub), (ud, .pub), (pc, .pub), (custom.length, .pub)]
   refine runs_call_some f_tinyjambu_prng_init_user vs prog_prng_init_user (by simp only [evalArgs, hes, hecb, heud, hec, hecl]; rfl) rfl ?_
   rw [init_body_eq]
-  refine (init_user_body _ { st with mem := (enterFun f_tinyjambu_prng_init_user vs st.mem).2 } bp bi X XI baseP basei ioff pc ud custom rfl rfl rfl rfl rfl rfl hP hXs hal hltP hud hI hne hsz).weaken ?_
+  refine (init_user_body cbarg cbv udv _ { st with mem := (enterFun f_tinyjambu_prng_init_user vs st.mem).2 } bp bi X XI baseP basei ioff pc ud custom hsel hk rfl rfl rfl rfl rfl rfl hP hXs hal hltP hud hI hne hsz).weaken ?_
   intro sig e s ⟨hs, hent, hmsz, hobj, hoth⟩
   have hmsz' : s.mem.size = st.mem.size := hmsz
   have hext : s.mem.extract 0 st.mem.size = s.mem := by rw [← hmsz']; exact extract_self _
@@ -274,5 +291,42 @@ theorem prng_init_user_call_ret (x : Nat) (env : Env) (st : St) (es ecb eud ec e
   · show (s.mem.extract 0 st.mem.size).size = _; rw [hext]; exact hmsz'
   · show ∃ X', (s.mem.extract 0 st.mem.size)[bp]? = _ ∧ _; rw [hext]; exact hobj
   · show ∀ j, j ≠ bp → ORel _ (s.mem.extract 0 st.mem.size)[j]? _; rw [hext]; exact hoth
+
+theorem prog_prng_init : prog[idx_tinyjambu_prng_init]? = some f_tinyjambu_prng_init := by
+  simp only [prog, idx_tinyjambu_prng_init, List.getElem?_cons_succ, List.getElem?_cons_zero]
+
+/-- what both `tinyjambu_prng_init(state, custom, len)` and `tinyjambu_prng_init_user(state, NULL, …, custom, len)` leave: the system source installed, user
+    data zero, one delivery of the entropy script (the model of `tinyjambu_trng_generate`) hashed into `V` -/
+def InitSysPost (st : St) (bp bi : Nat) (X : Array LByte) (baseP ioff : Nat) (custom : Bytes) (s : St) : Prop :=
+  s.ent = st.ent.tail ∧ s.mem.size = st.mem.size ∧
+    (∃ X', s.mem[bp]? = some ⟨X', baseP⟩ ∧ X'.size = X.size ∧
+      PObjV X' (hashDf 0xFF (seedOf (st.ent.headD ([], 0)) (zeros 32)) custom) (hashDf 0 (hashDf 0xFF (seedOf (st.ent.headD ([], 0)) (zeros 32)) custom) []) 1 32 ∧ PCb X' 0 sysCb) ∧
+    ∀ j, j ≠ bp → ORel (KeepW (fun _ => False) (fun q => j = bi ∧ ioff ≤ q ∧ q < ioff + custom.length)) s.mem[j]? st.mem[j]?
+
+/-- **`x = tinyjambu_prng_init(state, custom, custom_len)`** on the regenerated term: `tinyjambu_prng_init_user` with the system source -/
+theorem prng_init_call_ret (x : Nat) (env : Env) (st : St) (es ec ecl : Expr) (bp bi : Nat) (X XI : Array LByte) (baseP basei ioff pc : Nat) (custom : Bytes)
+    (hes : evalE env es = .ok (mkPtr bp baseP, .pub)) (hec : evalE env ec = .ok (pc, .pub)) (hecl : evalE env ecl = .ok (custom.length, .pub))
+    (hP : st.mem[bp]? = some ⟨X, baseP⟩) (hXs : 96 ≤ X.size) (hal : baseP % 8 = 0) (hltP : baseP + X.size < ptrBase)
+    (hI : custom = [] ∨ (st.mem[bi]? = some ⟨XI, basei⟩ ∧ BytesV XI ioff custom ∧ pc = mkPtr bi (basei + ioff) ∧ basei + XI.size < ptrBase)) (hne : bi ≠ bp)
+    (hsz : st.mem.size + 5 < 2 ^ 30) :
+    RunsTo prog (.call (some x) idx_tinyjambu_prng_init [es, ec, ecl]) env st (fun sig e s => sig = .normal ∧
+      e = setVar env x (if cbRet sysCb (st.ent.headD ([], 0)) = 32 then 1 else 0, .pub) ∧ InitSysPost st bp bi X baseP ioff custom s) := by
+  let vs : List LVal := [(mkPtr bp baseP, .pub), (pc, .pub), (custom.length, .pub)]
+  refine runs_call_some f_tinyjambu_prng_init vs prog_prng_init (by simp only [evalArgs, hes, hec, hecl]; rfl) rfl ?_
+  have hent : enterFun f_tinyjambu_prng_init vs st.mem = (#[(mkPtr bp baseP, .pub), (pc, .pub), (custom.length, .pub), (0, .undef)], st.mem) := rfl
+  have hbody : f_tinyjambu_prng_init.body = .seq (.call (some 3) idx_tinyjambu_prng_init_user [.var 0, .lit sysCb, .lit 0, .var 1, .var 2]) (.ret (some (.var 3))) := rfl
+  rw [hbody, hent]
+  refine runs_seq (prng_init_user_call_ret sysCb sysCb 0 3 _ { st with mem := st.mem } (.var 0) (.lit sysCb) (.lit 0) (.var 1) (.var 2) bp bi X XI baseP basei ioff pc 0 custom
+    (Or.inl ⟨by decide, rfl, rfl⟩) (Or.inr rfl) (by simp [evalE]) (by simp [evalE]) (by simp [evalE]) (by simp [evalE]) (by simp [evalE]) hP hXs hal hltP (by decide) hI hne hsz) ?_
+  intro e1 s1 ⟨he1, hent1, hsz1, hobj, hoth⟩
+  rw [he1]
+  refine runs_ret_some (if cbRet sysCb (st.ent.headD ([], 0)) = 32 then 1 else 0, .pub) (by
+    simp only [evalE]; rw [get_set_eq _ _ _ (show 3 < 4 from by decide)]; simp) ?_
+  have hsz1' : s1.mem.size = st.mem.size := hsz1
+  have hext : s1.mem.extract 0 st.mem.size = s1.mem := by rw [← hsz1']; exact extract_self _
+  refine ⟨_, rfl, rfl, rfl, hent1, ?_, ?_, ?_⟩
+  · show (s1.mem.extract 0 st.mem.size).size = _; rw [hext]; exact hsz1'
+  · show ∃ X', (s1.mem.extract 0 st.mem.size)[bp]? = _ ∧ _; rw [hext]; exact hobj
+  · show ∀ j, j ≠ bp → ORel _ (s1.mem.extract 0 st.mem.size)[j]? _; rw [hext]; exact hoth
 
 end TJ.MiniC.Hoare
